@@ -19,6 +19,7 @@ import (
 	"os"
 	"path/filepath"
 	"sort"
+	"strings"
 	"time"
 
 	"verif/harness/o4pair"
@@ -44,6 +45,7 @@ type Case struct {
 	T       Tamper         `json:"tamper"`
 	Chunk   o4pair.Chunker `json:"chunk"`
 	ReadSz  []int          `json:"read_sz"`
+	End     string         `json:"end,omitempty"`     // network error after the tampered bytes: eof (default) | timeout | other
 	Persist int            `json:"persist,omitempty"` // the caller keeps calling Read after the first error: so many more error-returning Reads
 }
 
@@ -481,9 +483,13 @@ func (x *runner) runCase(c Case, o *Outcome) {
 
 	sizes := c.Chunk.Split(len(tw), frameEnds(frames))
 	pr.Deliver(c.Dir, tw, sizes)
-	pr.EOF(c.Dir)
+	end := c.End
+	if end == "" {
+		end = "eof"
+	}
+	pr.Fail(c.Dir, end)
 	model.Deliver(c.Dir, tw, sizes)
-	model.Fail(c.Dir, "eof")
+	model.Fail(c.Dir, end)
 	rd := pr.Reader(c.Dir)
 	blocked := rd.Drain(next)
 	o.ErrClass = o4pair.ErrClass(rd.Err)
@@ -507,10 +513,10 @@ func (x *runner) runCase(c Case, o *Outcome) {
 		o.V = &verdict{"delivered-past-damaged-frame", fmt.Sprintf("%s: after %s the first damaged frame is #%d (wire offset %d); intact data before it: %d bytes; delivered: %d bytes (error reported: %v)", dn, c.T.Op, dmg, fd, allowed, len(rd.Got), rd.Err)}
 	case blocked || rd.Err == nil:
 		o.V = &verdict{"no-error-reported", fmt.Sprintf("%s: after %s followed by EOF, Read reported no error (blocked=%v, delivered %d)", dn, c.T.Op, blocked, len(rd.Got))}
-	case o.Class == "altered" && dmg < len(frames) && len(tw)-frames[dmg].Start-acceptedForged >= 2+1446 && o.ErrClass == "net:eof":
+	case o.Class == "altered" && dmg < len(frames) && len(tw)-frames[dmg].Start-acceptedForged >= 2+1446 && strings.HasPrefix(o.ErrClass, "net:"):
 		// the damaged frame and at least a maximum-length frame of bytes after its length field
 		// were fed, yet only the EOF was reported: the damage itself went unnoticed
-		o.V = &verdict{"damage-unnoticed", fmt.Sprintf("%s: after %s (frame %d) with %d bytes fed from the damaged frame on, Read reported only EOF", dn, c.T.Op, dmg, len(tw)-frames[dmg].Start)}
+		o.V = &verdict{"damage-unnoticed", fmt.Sprintf("%s: after %s (frame %d) with %d bytes fed from the damaged frame on, Read reported only the network error (%s)", dn, c.T.Op, dmg, len(tw)-frames[dmg].Start, o.ErrClass)}
 	case !tampered && len(rd.Got) != len(want):
 		o.V = &verdict{"honest-stream-not-delivered", fmt.Sprintf("%s: untampered burst: %d of %d bytes before %v", dn, len(rd.Got), len(want), rd.Err)}
 	}
@@ -659,6 +665,7 @@ func genRandom(rng *vlib.Rng, i int) Case {
 	if rng.Intn(3) == 0 {
 		c.Persist = rng.Range(1, 3)
 	}
+	c.End = vlib.Pick(rng, []string{"eof", "eof", "timeout", "other"})
 	c.Chunk = pickChunker(rng)
 	c.ReadSz = pickReads(rng)
 	return c
@@ -692,6 +699,11 @@ func (a *agg) evaluate(cases []Case, origin string) []Outcome {
 			// real IAT sleeps with a pathological length table: not a verdict about the property
 			a.r.Count("skipped", "case-abandoned-after-300s")
 			fmt.Fprintf(os.Stderr, "case %s abandoned after the job timeout\n", cases[i].Name)
+			if a.r.ReplayDir != "" {
+				os.MkdirAll(a.r.ReplayDir, 0o755)
+				b, _ := json.MarshalIndent(map[string]interface{}{"property": a.r.Prop, "kind": "abandoned-slow-case", "case": cases[i]}, "", " ")
+				os.WriteFile(filepath.Join(a.r.ReplayDir, a.r.Prop+"-abandoned-"+cases[i].Name+".json"), b, 0o644)
+			}
 			continue
 		} else if err != nil || o.WorkerError != "" {
 			a.r.Violate("harness-worker-failed", "correspondence", fmt.Sprintf("[%s] worker: %v %s", cases[i].Name, err, o.WorkerError), cases[i])
